@@ -198,7 +198,7 @@ impl ThreeFold {
 
     pub fn add(&mut self, board: Board) -> bool {
         let count = self.boards.entry(board).or_insert(0);
-        *count += 1;
+        *count = count.saturating_add(1);
         *count == 3
     }
 
@@ -224,7 +224,7 @@ impl<'a> BoardList<'a> {
             prev: PrevBoard::Prev(self),
             board,
             three_fold: self.three_fold,
-            count: self.count(board) + 1,
+            count: self.count(board).saturating_add(1),
         }
     }
 
